@@ -24,7 +24,7 @@ def run(rep):
     closures_fp(rep, mir, L)
     lowrank_guards(rep, mir, L)
     from ..driver import parts
-    parts(rep, [lambda: initial_matrix(rep, mir, L), lambda: inner_matrix(rep, mir, L)])
+    parts(rep, [lambda: initial_matrix(rep, mir, L), lambda: inner_matrix(rep, mir, L), lambda: too_few_draws(rep, mir, L)])
 
 # ------------------------------------------------------------------------------------------------
 def exactness(rep, mir, L, n):
@@ -285,3 +285,24 @@ def inner_matrix(rep, mir, L):
             if verdict == 'violated': bad.append((nm, str(model)[:200]))
     rep.cover('C08.5 InnerMatrix::new returns', any(k == 'ret' for (_, k, _) in outs))
     if bad: rep.violated('C08.5 low-rank factor representation', 'lowrank.inner', 'InnerMatrix::new: %s' % (bad[0],), model={'problems': [str(b)[:300] for b in bad[:5]]})
+
+
+def too_few_draws(rep, mir, L):
+    """DiagAdaptStrategy::adapt with fewer than three samples in the estimator: reports no change and leaves the transformation (and its id) alone"""
+    A = RealAlg(); vm = VM(mir, A, inst={}); env = MathEnv(vm, 1, 'uf', L); install_misc(vm); F = 'diagonal'
+    adapt = mir.method('Strategy', 'MassMatrixAdaptStrategy', 'adapt', file=F); cnt = z3.Int('count')
+    def rvs(t): return L.make('RunningVariance', {'mean': Seq([A.fresh('m_' + t)]), 'variance': Seq([A.fresh('v_' + t)]), 'count': cnt})
+    settings = L.make('DiagAdaptExpSettings', {'store_mass_matrix': False, 'use_grad_based_estimate': True})
+    strat = L.make('Strategy', {'exp_variance_draw': rvs('d'), 'exp_variance_grad': rvs('g'), 'exp_variance_grad_bg': rvs('gb'), 'exp_variance_draw_bg': rvs('db'), '_settings': settings, '_phantom': Struct((), 'PhantomData')}, file=F)
+    m = Machine(); math = Ref(m.alloc(Opaque('math'))); sc = m.alloc(strat)
+    mm_ = L.make('DiagMassMatrix', {'mean': Seq([A.fresh('old_mean')]), 'inv_stds': Seq([A.fresh('old_inv_std')]), 'stds': Seq([A.fresh('old_std')]), 'logdet': A.fresh('old_logdet'), 'store_mass_matrix': False, 'id': z3.Int('mm_id')})
+    mc = m.alloc(mm_); m.pc += [cnt >= 0, cnt < 3]
+    outs = list(vm.exec_fn(m, adapt, [Ref(sc), math, Ref(mc)])); rep.paths += len(outs); rep.absorb_vm(vm); bad = []
+    for (m2, k, v) in outs:
+        if k != 'ret': bad.append(('adapt panics with %s samples' % 'fewer than three', str(v)[:100])); continue
+        changed = v if isinstance(v, bool) else not z3.is_false(z3.simplify(v))
+        if changed is not False: bad.append(('adapt reports a change with fewer than three samples (the step-size search would be re-run and the update cadence reset on no information)',))
+        if not vm._same(m2.mem[mc], mm_): bad.append(('adapt modifies the transformation with fewer than three samples',))
+    rep.cover('C08.6 adapt with < 3 samples has a path', len(outs) > 0)
+    if bad: rep.violated('C08.6 diagonal adaptation with fewer than three samples', 'diag.too_few', 'DiagAdaptStrategy::adapt: %s' % (bad[0],), model={'problems': [str(b) for b in bad]})
+    else: rep.holds('C08.6 DiagAdaptStrategy::adapt with fewer than three samples: returns false, transformation and id unchanged (%d paths)' % len(outs))
